@@ -24,7 +24,7 @@ import time
 
 import numpy as np
 
-from vf import core, poolmodel
+from vf import core, driverfail, poolmodel
 
 PROPERTY = "C14"
 LEVEL = "model_checking"
@@ -311,6 +311,7 @@ def run(ctx):
     for c in cl:
         c["orders"] = [[x - 1 for x in o] for o in model[(c["ntasks"], c["W"])]["orders"]]
     res = core.run_forked(ctx, case_pool, cl, sub="pool-cell", nproc=8)
+    ctx.run_cases(driverfail.case_failing_step, driverfail.cases(ctx.tier), sub="series with an unusable step / process state: deliver nothing or deliver it right", chunksize=1)
     traces = int(sum(r.get("obs", {}).get("traces", 0) for r in res))
     ctx.cov.update(
         {
